@@ -31,9 +31,12 @@ def states_stage(ctx):
 def run(ctx):
     engine_check.run(ctx, "C13")
     states_stage(ctx)
+    vlib.bad_done_stage(ctx, "c13_single.cpp", "c13_single", "singular state switch", "single")
 
 
 def replay(j):
+    if (j.get("replay") or {}).get("mode") == "single":
+        return vlib.replay_bad_done("C13", "c13_single.cpp", "c13_single", "singular state switch", "single")
     if (j.get("replay") or {}).get("stage") == "states":
         class _C:
             def __init__(self):
